@@ -93,7 +93,13 @@ Record pcase := {
 Definition LATE : Z := 1000000000000.
 Definition TIMEOUT : Z := 1000000.
 
-(** burst classes: 0/1 = timely (arrives j ticks after the request), 2 = late *)
+(** burst classes: 0/1 = timely (arrives j ticks after the request), 2 = late;
+    3 / 4 = timely AND placed by the harness at an exact point of the exchange: 3 = right after the
+    request has been fully written, before the library's next tty call (the window in which a
+    discard that followed the write would lose it: model/QueryFlush.v), 4 = after the library has
+    switched the tty to its reading mode.  In the model every timely burst arrives at or after the
+    instant the write returns and the discard precedes the write ([flush_before] = [always_flush],
+    C12_query_flush_precedes_write): the placement cannot change the model's answer. *)
 Fixpoint sched_of (j : Z) (bursts : list (nat * list byte)) : list (Z * list byte) :=
   match bursts with
   | [] => []
